@@ -38,7 +38,7 @@ def main():
     ck.do_build()
     rnd = random.Random(ck.seed + 14)
     quick = ck.tier == "quick"
-    nsys = 40 if quick else 1200
+    nsys = 40 if quick else 450
     done = 0
     tries = 0
     ops, recs = [], []
